@@ -6,6 +6,8 @@ several rows apply the union is returned (precedence is not stated)."""
 from . import coapwire as cw
 from . import uri as U
 
+PROXY_OWN_NAMES = {b"proxy.example"}        # names the harness's proxy resource answers for
+PROXY_FORWARD = "proxy-forward"              # sentinel outcome: see admissible()
 KNOWN_CRITICAL = {1, 3, 5, 7, 11, 15, 17, 23, 27, 35, 39}      # + OSCORE 9 when configured
 KNOWN = set(cw.OPT_LEN)
 WELLKNOWN = [b".well-known", b"core"]
@@ -124,7 +126,28 @@ def admissible(req, table, mcast=False):
         if not table.proxy:
             outs += err(0xA5)
         else:
-            return None, False                 # forwarding proxy: not covered by the statement
+            # A server with proxy support (RFC 7252 5.7.1): an unknown critical option that is
+            # Safe-to-Forward (bit 1 clear) does not stop a proxy request; an Unsafe one, and an
+            # illegal repetition, still gives 4.02 - the option check comes before anything else
+            hard = [b for b in bad if b[0] == "repeated" or b[1] & 2]
+            if mcast or 9 in nums:
+                return None, False     # (an OSCORE option takes the request another way)
+            if hard or (has_proxy_scheme and 3 not in nums):
+                return outs, True
+            host = None
+            for n, v in req["options"]:
+                if n == 35 and v.startswith(b"coap://"):
+                    host = v[7:].split(b"/")[0].split(b":")[0]
+                elif n == 3 and not has_proxy_uri:
+                    host = v
+            simple = not mcast and all(n in (3, 11, 35, 39) or (n & 1 and not n & 2 and
+                                                                 n not in KNOWN_CRITICAL)
+                                       for n in nums) and code in (1, 2, 3, 4)
+            if simple and host is not None and host not in PROXY_OWN_NAMES:
+                # plain forwarding request to a foreign authority: the proxy handler runs once
+                # and its answer is sent (what it answers is the application's business)
+                return PROXY_FORWARD, True
+            return None, False                 # other proxy requests: not covered in detail
     hop = [v for n, v in req["options"] if n == 16]
     if hop:
         h = hop[0][0] if len(hop[0]) == 1 else None
